@@ -411,6 +411,13 @@ func Worker(o core.WorkerOpts) *core.Report {
 				return rr.InDomain && rr.Violation != nil && rr.Violation.Signature() == v.Signature()
 			}, 2000)
 			fr := Execute(min, true)
+			if fr.Violation == nil {
+				min = c
+				fr = Execute(c, true)
+				if fr.Violation == nil {
+					fr.Violation = &v
+				}
+			}
 			l.AddReplay(*fr.Violation, caseSeed, min, c, fr.Trace.Events, fr.Trace.Hash(), used, "controlled")
 		}
 	})
